@@ -757,7 +757,7 @@ func (path *Path) PrependAsn(asn uint32, repeat uint8, confed bool) {
 			if int(repeat)+len(asList) > 255 {
 				repeat = uint8(255 - len(asList))
 			}
-			newAsList := append(asns[:int(repeat)], asList...)
+			newAsList := append(asns[:int(repeat):int(repeat)], asList...)
 			asPath.Value[0] = bgp.NewAs4PathParam(segType, newAsList)
 			asns = asns[int(repeat):]
 		}
